@@ -103,7 +103,7 @@ thread_local! {
 }
 
 /// Run a query under a script; print `<result> ;; <trace>`.
-pub fn run_q<T>(script: Script, q: impl FnOnce() -> GDResult<T>, show: impl Fn(&T) -> String) -> String {
+pub fn run_q<T: crate::views::ViewDump>(script: Script, q: impl FnOnce() -> GDResult<T>, show: impl Fn(&T) -> String) -> String {
     let budget = 200_000;
     vh::install(script, budget);
     let base = crate::alloc::begin();
@@ -112,12 +112,18 @@ pub fn run_q<T>(script: Script, q: impl FnOnce() -> GDResult<T>, show: impl Fn(&
     LAST_ALLOC.with(|c| c.set((peak, largest)));
     let log = vh::uninstall();
     let res = show_res(&r, show);
+    let view = r
+        .as_ref()
+        .ok()
+        .and_then(crate::views::ViewDump::view_dump)
+        .map_or(String::new(), |v| format!(" ;; V{}", hex(v.as_bytes())));
     drop(r);
     format!(
-        "{} ;; {} ;; A{}/{}",
+        "{} ;; {} ;; A{}/{}{}",
         res,
         log.iter().map(show_event).collect::<Vec<_>>().join(" "),
         peak,
-        largest
+        largest,
+        view
     )
 }
